@@ -131,7 +131,11 @@ def taint_from(fn, seeds, through_bin=False):
                             "alloc::boxed::Box::<T>::new", "alloc::boxed::box_new", "alloc::slice::<impl [T]>::into_vec",
                             "alloc::boxed::box_assume_init_into_vec_unsafe", "alloc::boxed::Box::<core::mem::MaybeUninit<T>, A>::assume_init",
                             "alloc::boxed::Box::<core::mem::MaybeUninit<T>, A>::write",
-                            "core::result::Result::<T, E>::and_then", "core::result::Result::<T, E>::map_err")
+                            "core::result::Result::<T, E>::and_then", "core::result::Result::<T, E>::map_err",
+                            "core::result::Result::<T, E>::expect", "core::result::Result::<T, E>::unwrap",
+                            "core::option::Option::<T>::expect", "core::option::Option::<T>::unwrap",
+                            "core::result::Result::<T, E>::unwrap_or_else", "core::result::Result::<T, E>::ok",
+                            "anyhow::Context::context", "anyhow::Context::with_context")
                       or (o or "").startswith("core::iter::traits::") or (o or "").startswith("alloc::vec::Vec::<T, A>::into_")
                       or (o or "").startswith("core::slice::<impl [T]>::iter")) and ai == 0:
                     if o and o.endswith("::collect") or True:
